@@ -43,6 +43,8 @@ def pat_text(p):
     kind, value, flags = p
     if kind == 'str':
         return lit(value) + flags
+    if kind == 'range':         # "a".."c"  (value = the two end characters)
+        return '%s..%s' % (lit(value[0]), lit(value[1]))
     return '/%s/%s' % (value.replace('/', '\\/'), flags)
 
 
